@@ -355,8 +355,8 @@ def check_timer(repo, pm, rep, rule='C05.G4'):
               'restart() does not leave the timer started at the current time')
 
 
-def check_invariants(repo, model: FsmModel, rep):
-    """G5: inductive invariants, cell by cell."""
+def check_invariants(repo, model: FsmModel, rep, only_timer_rule=None):
+    """G5: inductive invariants, cell by cell.  ``only_timer_rule``: report just the ARTIM invariant, under that rule id (C13.K9)."""
     missing = []
     for (e, s), action_id in sorted(ps3_8.TABLE.items()):
         meth = model.table.get(('EVT_%d' % e, 'STA_%d' % s))
@@ -388,6 +388,9 @@ def check_invariants(repo, model: FsmModel, rep):
             if s == 13 and summ['indicate']:
                 p_ind13.append('%s(): indication %s after the association is over (Sta13)' % (meth, sorted(summ['indicate'])))
         loc = f.loc()
+        if only_timer_rule is not None:
+            rep.check(not p_timer, only_timer_rule, key, loc, 'ARTIM runs exactly in Sta2/Sta13 after this cell', ' | '.join(sorted(set(p_timer))))
+            continue
         rep.check(not p_timer, 'C05.G5a', key, loc, 'ARTIM runs exactly in Sta2/Sta13 after this cell', ' | '.join(sorted(set(p_timer))))
         rep.check(not p_sock, 'C05.G5b', key, loc, 'transport present iff not idle after this cell', ' | '.join(sorted(set(p_sock))))
         rep.check(not p_pdata, 'C05.G5c', key, loc, 'no P-DATA outside an established association', ' | '.join(sorted(set(p_pdata))))
